@@ -234,8 +234,8 @@ func checkC09(r *Report, known []Finding) {
 					if len(h) > 60 {
 						h = h[:60]
 					}
-					cmp("UnmarshalText(into POSIX value).FindIndex", fmt.Sprint(sp.FindIndex(h)), fmt.Sprint(cp2.FindIndex(h)))
-					cmp("UnmarshalText(into Longest value).FindIndex", fmt.Sprintf("%v%v|%v", e5, e6, sl.FindIndex(h)), fmt.Sprintf("%v%v|%v", e5, e6, cl.FindIndex(h)))
+					cmp(fmt.Sprintf("UnmarshalText(into POSIX value).FindIndex on %q", h), fmt.Sprint(sp.FindIndex(h)), fmt.Sprint(cp2.FindIndex(h)))
+					cmp(fmt.Sprintf("UnmarshalText(into Longest value).FindIndex on %q", h), fmt.Sprintf("%v%v|%v", e5, e6, sl.FindIndex(h)), fmt.Sprintf("%v%v|%v", e5, e6, cl.FindIndex(h)))
 				}
 			}
 		}
